@@ -237,8 +237,9 @@ def call(PL, name, args, eb, rsc, cb, record=False, positional_degree=False, ret
     if isinstance(r, tuple):
         r, scale = r
         scale = float(np.asarray(scale, dtype=float).reshape(-1)[0])
-    c = getattr(r, "coef", r)
-    return {"status": "ok", "coefs": np.asarray(c), "scale": scale, "raw_type": raw, "rec": rec, "constructor": ck,
+    c = np.array(getattr(r, "coef", r), copy=True)
+    core.poison(r)                    # the caller owns what generate() returned; the library must not have kept it
+    return {"status": "ok", "coefs": c, "scale": scale, "raw_type": raw, "rec": rec, "constructor": ck,
             "object_form": hasattr(r, "coef")}
 
 
